@@ -77,7 +77,7 @@ def run_batch(exe, program, cases, chunk=64):
     return outs
 
 
-def run_cases(program, cases, record, prop, name, batch=False):
+def run_cases(program, cases, record, prop, name, batch=False, pairs_from=None):
     """cases: [(goal_text, expected_output_line)]. Each goal must print one line.
     Returns replay record (written to REPLAY_DIR/prop/name.json)."""
     os.makedirs(os.path.join(REPLAY_DIR, prop), exist_ok=True)
@@ -91,8 +91,14 @@ def run_cases(program, cases, record, prop, name, batch=False):
     else:
         mism = []
         if batch:
-            for (goal, want), got in zip(cases, run_batch(exe, program, cases)):
-                if got != want:
+            outs = run_batch(exe, program, cases)
+            for k, ((goal, want), got) in enumerate(zip(cases, outs)):
+                if want is None:
+                    # differential pair (from index pairs_from on): odd member must equal the even one
+                    if pairs_from is not None and (k - pairs_from) % 2 == 1 and got != outs[k - 1]:
+                        mism.append({"goal": goal, "want": outs[k - 1], "got": got,
+                                     "reference_goal": cases[k - 1][0]})
+                elif got != want:
                     mism.append({"goal": goal, "want": want, "got": got})
         for goal, want in ([] if batch else cases):
             g = "catch((%s), E, (write(exception(E)), nl)), halt" % goal
@@ -362,6 +368,8 @@ EQI_PROGRAM = """
 show(X) :- write(X), nl.
 lit2(2). lit7(7). litb(36028797018963968). litr(R) :- R is 1 rdiv 3.
 yn(G) :- ( catch(G, _, fail) -> show(yes) ; show(no) ).
+r(G, T, R) :- catch(( G -> R = yes(T) ; R = no ), error(E, _), R = err(E)).
+showv(R) :- copy_term(R, C), numbervars(C, 0, _), write_term(C, [numbervars(true), quoted(true)]), nl.
 """
 
 
@@ -387,7 +395,24 @@ def replay_equal_integers(viol):
         ("Y is 2^60-2^60+2, length(L, Y), show(L)", "[_A,_B]"),
     ]
     cases[-1] = ("Y is 2^60-2^60+2, length(L, Y), length(L, N), show(N)", "2")
-    return run_cases(EQI_PROGRAM, cases, {"model": viol}, "C05", "equal_integers")
+    # builtins that take an integer argument: same outcome for the literal and for the same value
+    # arriving in a bignum cell (differential: outcome = yes(Result) / no / err(E))
+    templates = ["arg(N, f(a,b,c), T)", "functor(T, foo, N)", "length(T, N)", "length([a,b,c|_], N)",
+                 "length([a|_], N)", "length([a,b], N)", "sub_atom(hello, N, 1, _, T)",
+                 "nth0(N, [a,b,c], T)", "nth1(N, [a,b,c], T)", "number_codes(N, T)", "number_chars(N, T)",
+                 "T is N + 1", "findall(X, between(0, N, X), T)", "succ(N, T)", "succ(T, N)",
+                 "msort([3,N,1], T)", "compare(T, N, 2)", "copy_term(N, T)", "T = g(N), T == g(2)",
+                 "atom_length(ab, N)", "N2 is N + 95, char_code(T, N2)", "N3 is N * 350, op(N3, xfx, =+=), "
+                 "current_op(T, xfx, =+=)", "length(L, 3), N4 is N + 1, nth0(N4, L, z), T = L",
+                 "T = \"abc\", N5 is N - 2, sub_atom(abc, N5, _, 0, _)", "atom_chars(T0, [a,b,c]), sub_atom(T0, _, N, 0, T)",
+                 "number_vars_probe(N, T)"]
+    templates = templates[:-1]
+    for tpl in templates:
+        for v in (2, 0, -1):
+            cases.append(("N = %d, r((%s), T, R1), showv(R1)" % (v, tpl), None))
+            cases.append(("N is 2^60-2^60+(%d), r((%s), T, R2), showv(R2)" % (v, tpl), None))
+    rec = run_cases(EQI_PROGRAM, cases, {"model": viol}, "C05", "equal_integers", batch=True, pairs_from=15)
+    return rec
 
 
 # ---------------------------------------------------------------- C01 (bignum arms)
